@@ -106,6 +106,8 @@ def run_compose(ctx: Ctx) -> None:
     ctx.fn(fLog)
     ctx.rule("T4.compose", "compose_flows(u, v, align_corners=a) = u + sample(v at identity_coords(a) + u) with torch's align_corners = a and border "
                            "padding; the zero field is a two-sided identity (exactly)")
+    ctx.rule("T4.logv-iteration", "logv(flow, num_iters=2, bch_terms in {0, 1}) equals two explicit iterations of v <- compose_svfs(compose_flows(flow, "
+                                  "expv(v, inverse=True)), v) on the given flow, and leaves its input tensor unchanged")
     ctx.rule("T4.logv-convention", "logv(flow, align_corners=a): every sampling call reached (through expv, compose_flows) uses align_corners = a "
                                    "and positions built from identity_coords(a)")
     for D, shape in ((2, (3, 4)), (3, (2, 2, 3))):
@@ -165,3 +167,28 @@ def run_compose(ctx: Ctx) -> None:
                             return False, f"sampling call {i} builds its positions from the identity grid of the other convention"
                 return True, ""
             _guard(ctx, "T4.logv-convention", f"D={D}:ac={ac}", fLog, f"logv D={D} align_corners={ac}", thl)
+
+            for bch in (0, 1):
+                def thit(D=D, shape=shape, ac=ac, bch=bch):
+                    # the fixed-point iteration v <- v o (exp(-v) o flow): every iteration composes with the *given* flow, which is
+                    # left untouched (the update of v must not write through an alias of the input)
+                    reset_relations()
+                    fresh_facts()
+                    it = make_interp(ctx)
+                    flow = STensor.symbols("w", [1, D] + list(shape))
+                    flow0 = flow.clone()
+                    got = it.call(fLog, flow, num_iters=2, bch_terms=bch, sigma=None, exp_steps=1, align_corners=ac)
+                    if not teq(flow, flow0):
+                        return False, f"logv(bch_terms={bch}) modified its input flow"
+                    fX = prog.func("deepali.core.flow", "expv")
+                    fS = prog.func("deepali.core.flow", "compose_svfs")
+                    v = flow0.clone()
+                    for _ in range(2):
+                        u = it.call(fX, v, steps=1, align_corners=ac, inverse=True)
+                        u = it.call(fC, flow0.clone(), u, align_corners=ac)
+                        v = it.call(fS, u, v, bch_terms=bch, sigma=None)
+                    if tuple(got.shape) != tuple(v.shape) or not teq(got, v):
+                        return False, (f"logv(num_iters=2, bch_terms={bch}) differs from two explicit iterations "
+                                       f"v <- compose_svfs(compose_flows(flow, expv(v, inverse=True)), v) on the given flow")
+                    return True, ""
+                _guard(ctx, "T4.logv-iteration", f"D={D}:ac={ac}:bch_terms={bch}", fLog, f"logv iteration D={D} align_corners={ac} bch_terms={bch}", thit)
